@@ -20,7 +20,13 @@ nfc.llcp.Error within bounded virtual time.
 
 legs: `random` (generated scenario + schedule choice list), `preempt`
 (bounded systematic: for fixed scenarios, every position of one forced
-preemption in a window of scheduling points around the termination event).
+preemption in a window of scheduling points around the termination event),
+`race` (one blocking call against terminate(), every schedule), `dlc-eol`
+(threads blocked on an established data link connection that reaches its end
+of life BEFORE the link does - frame reject received or sent, DISC, DM - and
+then the link terminates; every schedule up to a depth.  Oracle as phase 1
+and 2: every thread returns or raises nfc.llcp.Error, later calls on the dead
+connection too).
 """
 from hypothesis import strategies as st
 
@@ -41,6 +47,10 @@ ASSUMPTIONS = [
     "SystemExit leaving connect() after an IOError in the run loop is "
     "counted as 'connect returned' here; that contract is C18's matter",
     "simulated medium/driver (vlib/simdev.py)",
+    "race and dlc-eol legs: one link controller without MAC; the link thread "
+    "is reduced to what the run loop does with the controller - dispatch() of "
+    "a PDU decoded from bytes, collect(), terminate() - and the peer's PDUs "
+    "are hand-made; a socket is closed at most once by the application",
 ]
 
 SVC = "urn:nfc:sn:verif"
@@ -662,7 +672,271 @@ def enum_race(tier, seed):
             yield {"call": call, "choices": list(choices)}
 
 
+# connection end of life while threads are blocked, then the link ends -----
+# A data link connection can die before the link does: the peer rejects a
+# frame (FRMR), the peer sends something the local side must reject (I PDU
+# out of sequence / longer than the receive MIU / a connection-less PDU on the
+# connection; the FRMR goes out with the next collect()), the peer disconnects
+# (DISC) or sends DM.  Threads blocked on that connection at that moment are
+# still "blocked socket calls" when the link terminates afterwards.
+EOL_CALLS = ["recv", "poll-recv", "poll-send", "send", "send-window-full",
+             "poll-acks", "close"]
+EOL_CALLSETS = [[c] for c in EOL_CALLS] + [
+    ["recv", "poll-send"], ["poll-recv", "send"], ["recv", "poll-acks"]]
+EOL_EVENTS = ["frmr", "i-ns", "i-long", "ui", "disc", "dm"]
+EOL_SEQS = [[e] for e in EOL_EVENTS] + [
+    ["i-ok", "frmr"], ["i-ns", "disc"], ["disc", "frmr"], ["i-ns", "i-ns"],
+    ["ui", "frmr"]]
+
+
+def eol_frame(event, local, peer):
+    from vlib import ref_llcp as R
+    h = {"dsap": local, "ssap": peer}
+    if event == "frmr":
+        p = dict(h, type="FRMR", flags=1, ptype=12, ns=0, nr=0, vs=0, vr=0,
+                 vsa=0, vra=0)
+    elif event == "i-ns":
+        p = dict(h, type="I", ns=5, nr=0, data=b"out of sequence")
+    elif event == "i-long":
+        p = dict(h, type="I", ns=0, nr=0, data=bytes(129))
+    elif event == "i-ok":
+        p = dict(h, type="I", ns=0, nr=0, data=b"in sequence")
+    elif event == "ui":
+        p = dict(h, type="UI", data=b"datagram")
+    elif event == "disc":
+        p = dict(h, type="DISC")
+    elif event == "dm":
+        p = dict(h, type="DM", reason=0)
+    else:
+        raise HarnessError("unknown event %r" % (event,))
+    return R.encode(p)
+
+
+def run_eol(case, ctx):
+    import nfc.llcp.llc as L
+    from vlib import ref_llcp as R
+    s = vsched.Sched([], seed=0, step_budget=40000)
+    vsched.activate(s)
+    DLC = nfc.llcp.DATA_LINK_CONNECTION
+    LOCAL, PEER = 37, 41
+    apps = []
+    link = {"exc": None, "done": False, "blocked_at_event": [],
+            "blocked_at_term": [], "sent": []}
+    post = {"done": False, "exc": None}
+    try:
+        llc = L.LogicalLinkController()
+        llc.cfg["send-miu"] = 128
+        llc.cfg["llcp-dpc"] = 0
+        est = {}
+        # establish the connection the way the link thread does it: PDUs are
+        # decoded from bytes and handed to dispatch(), collect() sends
+        if case["role"] == "connect":
+            sock = nfc.llcp.Socket(llc, DLC)
+            sock.bind(LOCAL)
+
+            def setup():
+                sock.connect(PEER)
+                est["ok"] = True
+            s.spawn(setup, "setup")
+            s.settle()
+            llc.collect()                                   # CONNECT
+            llc.dispatch(nfc.llcp.pdu.decode(R.encode(
+                {"type": "CC", "dsap": LOCAL, "ssap": PEER, "miu": 128,
+                 "rw": 1})))
+            s.settle()
+        else:
+            lsock = nfc.llcp.Socket(llc, DLC)
+            lsock.bind(LOCAL)
+            lsock.listen(1)
+
+            def setup():
+                est["sock"] = lsock.accept()
+                est["ok"] = True
+            s.spawn(setup, "setup")
+            s.settle()
+            llc.dispatch(nfc.llcp.pdu.decode(R.encode(
+                {"type": "CONNECT", "dsap": LOCAL, "ssap": PEER, "miu": 128,
+                 "rw": 1, "sn": None})))
+            s.settle()
+            llc.collect()                                   # CC
+            sock = est.get("sock")
+        if not est.get("ok"):
+            raise HarnessError("eol setup: connection not established")
+        if "send-window-full" in case["calls"]:
+            sock.send(b"1", nfc.llcp.MSG_DONTWAIT)
+            llc.collect()                       # V(S)=1, RW(R)=1: window full
+
+        closed = []
+
+        def app(call, st_, first):
+            def body():
+                try:
+                    if call == "close":
+                        closed.append(call)
+                    if call == "recv":
+                        st_["ret"] = sock.recv()
+                    elif call == "poll-recv":
+                        st_["ret"] = sock.poll("recv", None)
+                    elif call == "poll-send":
+                        sock.send(b"1", nfc.llcp.MSG_DONTWAIT)
+                        st_["ret"] = sock.poll("send", None)
+                    elif call in ("send", "send-window-full"):
+                        st_["ret"] = sock.send(b"x")
+                    elif call == "poll-acks":
+                        st_["ret"] = sock.poll("acks", None)
+                    elif call == "close":
+                        sock.close()
+                    st_["returned"] = True
+                    # the first thread closes the socket when its call is
+                    # over (a socket is closed once: close() on a socket
+                    # closed before is not part of the documented use)
+                    if case["then_close"] and first and call != "close":
+                        closed.append(call)
+                        sock.close()
+                except nfc.llcp.Error as e:
+                    st_["errno"] = e.errno
+                except (vsched.Abort, vsched.StepBudget):
+                    raise
+                except BaseException as e:
+                    st_["exc"] = e
+                st_["done"] = True
+            return body
+
+        frames = [eol_frame(e, LOCAL, PEER) for e in case["events"]]
+        if case["agf"] and len(frames) > 1:
+            frames = [R.encode({"type": "AGF", "dsap": 0, "ssap": 0, "pdus": [
+                R.decode(f) for f in frames]})]
+
+        def waiting():
+            return [t.name for t in s.blocked() if t.name.startswith("app")]
+
+        def linkloop():
+            try:
+                for i, f in enumerate(frames):
+                    if i == 0:
+                        link["blocked_at_event"] = waiting()
+                    llc.dispatch(nfc.llcp.pdu.decode(f))
+                    link["sent"].append(llc.collect())
+                for i in range(case["rounds"]):
+                    llc.dispatch(nfc.llcp.pdu.Symmetry())
+                    link["sent"].append(llc.collect())
+                link["blocked_at_term"] = waiting()
+                llc.mac = None
+                llc.terminate("test")
+            except (vsched.Abort, vsched.StepBudget):
+                raise
+            except BaseException as e:
+                link["exc"] = e
+            link["done"] = True
+
+        for i, call in enumerate(case["calls"]):
+            st_ = {"call": call, "done": False, "exc": None}
+            apps.append(st_)
+            s.spawn(app(call, st_, i == 0), "app%d:%s" % (i, call))
+        if case["mode"] == "blocked":
+            s.settle()              # every application thread waits now
+        s.choices, s.ci = list(case["choices"]), 0
+        s.spawn(linkloop, "link")
+        s.settle()
+        s.sleep(5.0)
+        s.settle()
+        blocked = [repr(t) for t in s.blocked()]
+        if link["done"] and all(a["done"] for a in apps):
+            # calls issued afterwards on the same (dead) connection
+            def later():
+                fns = [lambda: sock.recv(), lambda: sock.send(b"late"),
+                       lambda: sock.poll("recv", None),
+                       lambda: sock.poll("send", None),
+                       lambda: sock.poll("acks", None)]
+                if not closed:
+                    fns.append(lambda: sock.close())
+                for fn in fns:
+                    try:
+                        fn()
+                    except nfc.llcp.Error:
+                        pass
+                    except (vsched.Abort, vsched.StepBudget):
+                        raise
+                    except BaseException as e:
+                        post["exc"] = e
+                        break
+                post["done"] = True
+            s.spawn(later, "later")
+            s.settle()
+            s.sleep(5.0)
+            s.settle()
+        else:
+            post["done"] = None
+    except vsched.StepBudget:
+        raise Violation("livelock", "step budget exhausted")
+    finally:
+        s.shutdown()
+        vsched.activate(None)
+    ctx.set_class("eol/%s/%s" % ("+".join(case["events"]),
+                                 "+".join(case["calls"])))
+    ctx.label("event:" + "+".join(case["events"]))
+    if link["blocked_at_event"] or link["blocked_at_term"]:
+        ctx.nontrivial()
+        ctx.label("blocked-at-event=%d at-termination=%d" % (
+            len(link["blocked_at_event"]), len(link["blocked_at_term"])))
+    if link["exc"] is not None:
+        raise unexpected(link["exc"], "link-thread-raises",
+                         detail=repr(case["events"]))
+    for a in apps:
+        if a["exc"] is not None:
+            raise unexpected(a["exc"], "application-thread-raises",
+                             detail=a["call"])
+    if not link["done"]:
+        raise Violation("link-thread-blocked", repr(blocked))
+    left = [a["call"] for a in apps if not a["done"]]
+    if left:
+        raise Violation("thread-left-waiting",
+                        "connection ended by %r, then the link terminated: "
+                        "%r still blocked: %r" % (case["events"], left,
+                                                  blocked))
+    if post["exc"] is not None:
+        raise unexpected(post["exc"], "post-termination-call-raises")
+    if post["done"] is False:
+        raise Violation("post-termination-call-blocks",
+                        "call on the dead connection after termination")
+
+
+def enum_eol(tier, seed):
+    import itertools
+    nb, nr = (3, 3) if tier == "quick" else (6, 8)
+    nrounds = (0, 1) if tier == "quick" else (0, 1, 2)
+    for role in ("connect", "accept"):
+        for calls in EOL_CALLSETS:
+            for events in EOL_SEQS:
+                for agf in ([False, True] if len(events) > 1 else [False]):
+                    for rounds in nrounds:
+                        for then_close in (False, True):
+                            for mode, n in (("blocked", nb), ("race", nr)):
+                                for ch in itertools.product((0, 1), repeat=n):
+                                    yield {"role": role, "calls": calls,
+                                           "events": events, "agf": agf,
+                                           "rounds": rounds,
+                                           "then_close": then_close,
+                                           "mode": mode, "choices": list(ch)}
+
+
 LEGS = [
+    Leg("dlc-eol", run=run_eol, enum=enum_eol, exhaustive=True,
+        shards_quick=16, shards_thorough=16,
+        rule="an established data link connection (connecting / accepted "
+             "side) with 1-2 application threads in blocking calls on it "
+             "(recv, poll recv/send/acks, send, send with a full window, "
+             "close, optionally followed by close()); the connection ends "
+             "before the link does: the peer sends FRMR / an I PDU out of "
+             "sequence or longer than the MIU or a UI PDU (local FRMR) / DISC "
+             "/ DM, 11 event sequences, two events also in one AGF; 0-1 "
+             "(quick) "
+             "/ 0-2 (thorough) more link loop rounds (dispatch + collect), "
+             "then terminate(); threads blocked first or racing with the "
+             "link thread, every schedule choice list in {0,1}^3 (quick), "
+             "{0,1}^6 / {0,1}^8 (thorough).  non-trivial = "
+             "an application thread was blocked on the connection when the "
+             "first event was dispatched or when terminate() began."),
     Leg("race", run=run_race, enum=enum_race, exhaustive=True,
         shards_quick=8, shards_thorough=16,
         rule="one blocking socket call (8 kinds) in one thread against "
